@@ -123,3 +123,41 @@ Proof.
   destruct (pipeline_config_frozen_l [PModify j; PBWire (length (st_pblds s)) a f] s j p I Hp) as [H1 [H2 [_ [H3 _]]]].
   cbn [run fold_left] in *. repeat split; assumption.
 Qed.
+
+(* the scan of every method of a built dataset / container / pipeline finds no statement writing through the parts that describe it *)
+Lemma no_self_description_writes_l : self_description_writes = [].
+Proof. reflexivity. Qed.
+
+(* ---- histories that train nothing (every derivation is one: modify, clone, from_config, builder calls) ---- *)
+Definition trains_nothing (ops : list op) : Prop := Forall (fun o => match o with PTrain _ _ _ => False | _ => True end) ops.
+
+Lemma trains_nothing_hist_ok : forall ops s, trains_nothing ops -> hist_ok s ops.
+Proof.
+  induction ops as [|o ops IH]; intros s H; [exact Logic.I|]. inversion H as [|? ? H1 H2]; subst. split; [|apply IH; exact H2].
+  destruct o; try exact Logic.I. destruct H1.
+Qed.
+
+Lemma trains_nothing_never_trains : forall ops j, trains_nothing ops -> never_trains j ops.
+Proof.
+  intros ops j H. unfold never_trains. eapply Forall_impl; [|exact H]. intros o Ho. destruct o; cbn [trains]; try (intros []). destruct Ho.
+Qed.
+
+Lemma from_config_trains_nothing i o : trains_nothing (from_config_ops i o).
+Proof.
+  unfold from_config_ops, trains_nothing. constructor; [exact Logic.I|].
+  apply Forall_app. split; [apply Forall_forall; intros x Hx; apply in_map_iff in Hx; destruct Hx as [? [<- _]]; exact Logic.I|].
+  apply Forall_app. split; [apply Forall_forall; intros x Hx; apply in_map_iff in Hx; destruct Hx as [? [<- _]]; exact Logic.I|].
+  repeat constructor.
+Qed.
+
+(* a builder made from the pipeline's own configuration document (and, more generally, any history that trains nothing) leaves
+   the pipeline exactly as it was: nodes with their instance states, wiring, aliases, default, name *)
+Theorem from_config_frozen_l : forall ops1 j p i,
+  nth_error (st_pipes (run init ops1)) j = Some p ->
+  let s1 := run init ops1 in let s2 := run s1 (from_config_ops i (obs_p s1 p)) in
+  nth_error (st_pipes s2) j = Some p /\ obs_p s2 p = obs_p s1 p.
+Proof.
+  intros ops1 j p i H. cbv zeta. apply pipeline_frozen_from_init_l; [exact H| |].
+  - apply trains_nothing_hist_ok. apply from_config_trains_nothing.
+  - apply trains_nothing_never_trains. apply from_config_trains_nothing.
+Qed.
